@@ -20,7 +20,7 @@ def _grouping_loops(run, F):
     for n in q.walk(F, False):
         if isinstance(n, ast.For):
             it = strip_cast(n.iter)
-            if isinstance(it, ast.Call) and it in q.calls_to(run, F, {'sorted_groupby'}, nested=False):
+            if isinstance(it, ast.Call) and (it in q.calls_to(run, F, {'sorted_groupby'}, nested=False) or (dotted(it.func) or '').split('.')[-1] == 'groupby'):
                 out.append(n)
     return sorted(out, key=lambda n: (n.lineno, n.col_offset))
 
@@ -114,6 +114,9 @@ def rules_selection(run):
     infos = []
     for lp in loops:
         call = strip_cast(lp.iter)
+        run.check('sorted_groupby' in q.callee_shorts(run, call)[0], r, fi.short, 'full grouping (sorted_groupby) at ' + q.unparse(call)[:50],
+                  'an adjacency-based grouping (itertools.groupby) splits the transitions of one class when they are not declared next to each other: '
+                  'selection would depend on declaration order', lp)
         kf = q.key_function(run, F, q.arg(call, 1, 'key')) if q.arg(call, 1, 'key') is not None else None
         if kf is None:
             run.fail(r, fi.short, 'grouping key of ' + q.unparse(call)[:50], 'key function not recognised', lp)
